@@ -653,6 +653,10 @@ struct Extractor : public RecursiveASTVisitor<Extractor> {
       if (MD->getParent()->isLambda()) fo["lambda"] = true;
     }
     if (FD->isTemplateInstantiation()) fo["tmpl"] = true;
+    // internal linkage (static / anonymous namespace): a helper private to its translation unit
+    if (!FD->isExternallyVisible()) fo["internal"] = true;
+    if (auto* MD2 = dyn_cast<CXXMethodDecl>(FD))
+      if (MD2->getAccess() == AS_private) fo["private"] = true;
 
     CFG::BuildOptions BO;
     BO.setAllAlwaysAdd();
